@@ -77,4 +77,37 @@ def evict (max : Int) : Int → List (Nat × Bool × Int) → Int × List Nat
     else if pend then let r := evict max size rest; (r.1, id :: r.2)
     else evict max (size - sz) rest
 
+/-! ### C07 at the level of one DoCache / DoMultiCache / MGET call (milliseconds)
+
+`start` = the clock when the call began (client TTL runs from here), `arrival` = the clock when the reply of
+the caching transaction arrived (server PTTL runs from here). -/
+
+/-- the expiry the property demands of the reply of one cached read -/
+def expiryMs (start ttl arrival pttl : Int) : Int :=
+  if pttl < 0 then start + ttl else min (start + ttl) (arrival + pttl)
+
+/-- the call was observed between `tb` and `ta` (so `tb ≤ start ≤ arrival ≤ ta`): is the reported expiry possible? -/
+def expiryWindowOk (ttl pttl tb ta pxat : Int) : Bool :=
+  decide (expiryMs tb ttl tb pttl ≤ pxat) && decide (pxat ≤ expiryMs ta ttl ta pttl)
+
+/-- a second read between `t2b` and `t2a` of an entry with expiry `pxat` (nothing else touches the key):
+    a hit needs the expiry to be still ahead and reports that same expiry; a miss needs it to have passed -/
+def rehitOk (pxat t2b t2a : Int) (hit : Bool) (pxat2 : Int) : Bool :=
+  if hit then decide (t2b < pxat) && decide (pxat2 = pxat) else decide (pxat ≤ t2a)
+
+/-- CachePTTL / CacheTTL read between `tb` and `ta` of a reply with expiry `pxat ≠ 0` -/
+def accessorsOk (pxat tb ta pttlObs ttlObs : Int) : Bool :=
+  let lo := max 0 (pxat - ta)
+  let hi := max 0 (pxat - tb)
+  decide (lo ≤ pttlObs) && decide (pttlObs ≤ hi) && decide ((lo + 999) / 1000 ≤ ttlObs) && decide (ttlObs ≤ (hi + 999) / 1000)
+
+/-! ### C09 at the level of one batch with a repeated command
+
+`n` results were expected for the repeated command (its occurrences in the batch plus outside callers that joined
+the flight); `returned` of them came back before the watchdog, `nok` with the value, `nerr` with an error. -/
+def dupFlightOk (failed : Bool) (n returned nok nerr gets : Nat) (laterReturned laterHit laterOk : Bool) (laterGets : Nat) : Bool :=
+  returned == n && gets ≤ 1 && laterReturned && laterOk &&
+  (if failed then nok == 0 && nerr == n && !laterHit && laterGets == 1
+   else nerr == 0 && nok == n && laterHit && laterGets == 0)
+
 end Rv.Spec.Cache
